@@ -166,7 +166,7 @@ func (r *runner) apply(f []string) string {
 			time.Sleep(30 * time.Millisecond)
 			return "ok"
 		}
-		ok := waitFor(time.Second, func() bool {
+		ok := waitFor(500*time.Millisecond, func() bool {
 			c, _, _ := s.cstat.get()
 			sv, _, _ := s.sstat.get()
 			return (wc < 0 || c >= wc) && (ws < 0 || sv >= ws)
@@ -486,7 +486,7 @@ func (e *ex) finish() core.Result {
 	switch {
 	case isRace(e.hist) && v.returned && e.r.s.armed:
 		// the scheduling window of the directed F10c race was missed: try again on fresh sessions
-		for i := 0; i < 4 && v.returned; i++ {
+		for i := 0; i < 2 && v.returned; i++ {
 			core.Count("race_retry")
 			v2, s2 := replay(e.hist)
 			if s2 != nil {
